@@ -8,19 +8,28 @@
 EXTENDS Wal
 
 CONSTANTS NW, NK, MaxOps, MaxGap, Kinds, Policies, MemSizes, BatchN, PeriodT, WL, SL, ML, FL, Strat, Thr,
-          MaxLev, Dev
+          MaxLev, Dev,
+          FixedScript     \* <<>>: TLC chooses the scripts; else [1..NW -> Seq([gap, kind, key])] followed exactly
+
+NoScript == <<>>
+\* directed workload (found by TLC with NW=2, MaxOps=3, puts only) exhibiting "compaction_concurrent_install"
+W(g, k) == [gap |-> g, kind |-> "put", key |-> k]
+ScriptCompaction == << <<W(0, 1), W(1, 2), W(0, 1)>>, <<W(1, 2), W(1, 1), W(0, 1)>> >>
 
 MCCfgs == { [nw |-> NW, nk |-> NK, memsize |-> ms, policy |-> p, batch |-> BatchN, period |-> PeriodT,
              WL |-> WL, SL |-> SL, ML |-> ML, FL |-> FL, strat |-> Strat, thr |-> Thr, base |-> 1, ratio |-> 2,
              maxlev |-> MaxLev, dev |-> Dev] : ms \in MemSizes, p \in Policies }
 
 Init == /\ \E c \in MCCfgs : m = InitM(c)
-        /\ script = [w \in 1..NW |-> <<>>]
+        /\ script = IF FixedScript = <<>> THEN [w \in 1..NW |-> <<>>] ELSE FixedScript
 
 Running == m.phase = "run" /\ m.q # <<>>
 
 \* the writer's loop asks for its next gap: TLC chooses it (or ends the script)
-GapChoices(mm, w) == IF mm.cl[w].n < MaxOps THEN (0..MaxGap) \cup {STOP} ELSE {STOP}
+Scripted == FixedScript # <<>>
+GapChoices(mm, w) ==
+    IF Scripted THEN {IF mm.cl[w].n < Len(script[w]) THEN script[w][mm.cl[w].n + 1].gap ELSE STOP}
+    ELSE IF mm.cl[w].n < MaxOps THEN (0..MaxGap) \cup {STOP} ELSE {STOP}
 
 SegStep(pcname) ==
     /\ Running /\ HeadPc(m) = pcname
@@ -29,7 +38,7 @@ SegStep(pcname) ==
        IN IF m1.cl[w].pc = "next"
           THEN \E g \in GapChoices(m1, w) :
                   /\ m' = Resume(m1, w, g)
-                  /\ script' = IF g = STOP THEN script
+                  /\ script' = IF g = STOP \/ Scripted THEN script
                                ELSE [script EXCEPT ![w] = Append(@, [gap |-> g, kind |-> "", key |-> 0])]
           ELSE m' = m1 /\ UNCHANGED script
 
@@ -37,9 +46,11 @@ Start == SegStep("start")                 \* the writer's start event: runs to i
 OpBegin ==                                \* after the gap: put()/delete() up to wal.append's first yield
     /\ Running /\ HeadPc(m) = "gap"
     /\ LET w == HeadW(m) IN
-       \E kind \in Kinds, key \in 1..NK :
-          /\ m' = Begin(Pop(m), w, kind, key)
-          /\ script' = [script EXCEPT ![w][m.cl[w].n + 1].kind = kind, ![w][m.cl[w].n + 1].key = key]
+       IF Scripted
+       THEN LET e == script[w][m.cl[w].n + 1] IN m' = Begin(Pop(m), w, e.kind, e.key) /\ UNCHANGED script
+       ELSE \E kind \in Kinds, key \in 1..NK :
+               /\ m' = Begin(Pop(m), w, kind, key)
+               /\ script' = [script EXCEPT ![w][m.cl[w].n + 1].kind = kind, ![w][m.cl[w].n + 1].key = key]
 WalWritten == SegStep("wr")               \* write latency over: sync per policy, else memtable put
 WalSynced == SegStep("sy")                \* sync latency over: synced_up_to := seq; memtable put
 MemPutReturns == SegStep("mp")            \* memtable latency over: is_full? rotate + start flush
